@@ -598,10 +598,19 @@ func (ex *Exec) exec(fr *frame, instr ssa.Instruction) {
 	case *ssa.MakeSlice:
 		l := ex.Concretize(ex.get(fr, in.Len).(*Term))
 		c := ex.Concretize(ex.get(fr, in.Cap).(*Term))
-		if l < 0 || c < l || c > 1<<24 {
+		et := in.Type().Underlying().(*types.Slice).Elem()
+		// the runtime's rule: panic when len/cap are inconsistent or the allocation would
+		// exceed the address space limit (2^48 bytes on linux/amd64)
+		esz := types.SizesFor("gc", "amd64").Sizeof(et)
+		if esz < 1 {
+			esz = 1
+		}
+		if l < 0 || c < l || c > (1<<48)/esz {
 			ex.goPanicf("makeslice: len/cap out of range (%d,%d)", l, c)
 		}
-		et := in.Type().Underlying().(*types.Slice).Elem()
+		if c > 1<<24 {
+			ex.internal("make of %d elements: larger than the executor models", c)
+		}
 		s := ex.newSlice(et, nil, int(c))
 		s.Len = int(l)
 		fr.env[in] = s
